@@ -265,6 +265,7 @@ def C12(ctx):
     k1_rules(ctx, "C12")
     deque.rules(ctx)
     deque.stable_slot(ctx)
+    deque.growth_bound(ctx)
     return ("Decides the structural half of the Chase-Lev deque: publish order, decrement/restore-or-commit pairing in try_pop, last-item CAS, "
             "thief read-before-CAS, mask kind discipline and (by exhaustive finite evaluation of the loop-free index arithmetic) that grow() re-indexes "
             "the live range with the same mapping as get_entry from every top offset; memory orders incl. the four seq_cst sites.",
